@@ -529,11 +529,62 @@ impl ForwardedStreamSink {
         Ok(tail)
     }
 
+    /// Skip the trailer section which follows the terminating chunk: zero or more field lines,
+    /// then an empty line. `state.buffer` keeps what matters of the current line: nothing at
+    /// its start, one byte as soon as the line is not empty, and a trailing `\r`.
+    fn on_trailer_section(
+        &mut self,
+        mut state: SinkWaitingChunkSuffix,
+        data: Bytes,
+    ) -> io::Result<Bytes> {
+        let mut consumed = 0;
+        let mut complete = false;
+        for b in data.iter() {
+            consumed += 1;
+            match (state.buffer.last() == Some(&b'\r'), b) {
+                (true, b'\n') if state.buffer.len() == 1 => {
+                    complete = true;
+                    break;
+                }
+                (true, b'\n') => state.buffer.clear(),
+                (true, _) => {
+                    return Err(io::Error::new(
+                        ErrorKind::Other,
+                        "Invalid encoded chunk suffix",
+                    ))
+                }
+                (false, b'\r') => state.buffer.put_u8(b'\r'),
+                (false, _) if state.buffer.is_empty() => state.buffer.put_u8(*b),
+                (false, _) => (),
+            }
+        }
+
+        if !complete {
+            self.state = SinkState::WaitingChunkSuffix(state);
+            return Ok(Bytes::new());
+        }
+
+        if consumed < data.len() {
+            log_id!(
+                debug,
+                self.id,
+                "Dropping non-processed {} bytes coming after terminating encoded chunk",
+                data.len() - consumed
+            );
+        }
+        state.sink.eof()?;
+        Ok(Bytes::new())
+    }
+
     fn on_encoded_chunk_suffix(&mut self, mut data: Bytes) -> io::Result<Bytes> {
         let mut state = match std::mem::replace(&mut self.state, SinkState::Idle) {
             SinkState::WaitingChunkSuffix(x) => x,
             _ => unreachable!(),
         };
+
+        if state.terminating_chunk {
+            return self.on_trailer_section(state, data);
+        }
 
         let suffix = if state.buffer.is_empty() {
             data.split_to(std::cmp::min(data.len(), ENCODED_CHUNK_SUFFIX.len()))
